@@ -27,6 +27,7 @@ func propC06(c *Ctx) {
 	c.ruleNormalisers()
 	// ... and a build must not change what the caller will hand to the next one: an Option value applied to many cores
 	c.ruleOptionAliasingAs("C06-OPTION-ALIASING")
+	c.ruleDisallowedCalls("C06-DISALLOWED-CALLS") // the clock, the environment, a random source
 }
 
 // mapRangeExceptions: range-over-map loops that the classifier cannot discharge although reading shows
